@@ -330,6 +330,20 @@ pub fn refactorings(s: &Schema) -> Vec<(String, Schema)> {
     c.extend(s.0[1..].iter().cloned());
     out.push(("choice-through-socket".into(), Schema(c)));
   }
+  // (6c) a helper rule's choice spelled as base rule + "/=" increments (the name may be the target of a control
+  // operator, a table key, an array element: every place that asks "what kind of type is this name?")
+  for (k, h) in s.0.iter().enumerate().skip(1) {
+    if let (Body::Type(Ty(alts)), true, Assign::Eq) = (&h.body, h.params.is_empty(), &h.assign) {
+      if alts.len() >= 2 && s.0.iter().filter(|r| r.name == h.name).count() == 1 {
+        let mut rules = s.0.clone();
+        rules[k].body = Body::Type(Ty(vec![alts[0].clone()]));
+        for alt in &alts[1..] {
+          rules.push(RuleT { name: h.name.clone(), params: vec![], assign: Assign::TAlt, body: Body::Type(Ty(vec![alt.clone()])) });
+        }
+        out.push((format!("helper-choice-as-increments#{k}"), Schema(rules)));
+      }
+    }
+  }
   // (7) generic instantiation vs hand substitution: r = T  <->  r = id<T>, id<t> = t ; and for
   // arrays / maps at the root: [E] <-> arr<E-type>
   out.push(("generic-identity".into(), {
@@ -509,6 +523,30 @@ fn feature_bases() -> Vec<Ty> {
   ]
 }
 
+/// names that are choices, used where the validators classify a name (control targets, table keys)
+fn choice_lib() -> Vec<RuleT> {
+  vec![
+    type_rule("nb", Ty(vec![t1(name("bool")), t1(name("tstr"))])),
+    type_rule("nn", Ty(vec![t1(name("tstr")), t1(name("int"))])),
+    type_rule("nu", Ty(vec![t1(name("nil")), t1(name("bstr")), t1(name("uint"))])),
+    type_rule("na", Ty(vec![t1(name("nil")), t1(name("nb"))])),
+  ]
+}
+fn choice_bases() -> Vec<Ty> {
+  let li = |n: i128| T2::Lit(Lit::Int(n));
+  let arr = |es: Vec<Entry>| T2::Arr(Grp(vec![es]));
+  let mut out = vec![];
+  for n in ["nb", "nn", "nu", "na"] {
+    for (op, arg) in [("size", li(1)), ("size", li(3)), ("lt", li(2)), ("ge", li(1)), ("ne", li(1)), ("eq", T2::Lit(Lit::Text("a".into()))), ("regexp", T2::Lit(Lit::Text("[a-z]".into())))] {
+      out.push(Ty(vec![ctl(name(n), op, arg.clone())]));
+      out.push(ty1(arr(vec![ent(Occ::Star, Ty(vec![ctl(name(n), op, arg.clone())]))])));
+    }
+    out.push(ty1(T2::Map(Grp(vec![vec![Entry { occ: Occ::Star, kind: EK::Val(Some(Key::Arrow(t1(name(n)), false)), ty1(name("any"))) }]]))));
+    out.push(ty1(T2::Map(Grp(vec![vec![Entry { occ: Occ::One, kind: EK::Val(Some(Key::Bare("a".into())), Ty(vec![ctl(name(n), "size", li(1))])) }]]))));
+  }
+  out
+}
+
 pub const F_GENERIC: &str = "C08-generic-arguments-resolved-by-name-in-dynamic-scope";
 
 /// Recorded finding: generic parameters are bound by name in validator state that is shared by
@@ -618,6 +656,11 @@ pub fn run(tier: Tier) -> i32 {
   glib.extend(generic_lib());
   for ty in generic_bases() {
     bases.push((assemble(ty, &glib), None));
+  }
+  let mut clib = lib.clone();
+  clib.extend(choice_lib());
+  for ty in choice_bases() {
+    bases.push((assemble(ty, &clib), None));
   }
   let accs = par_sweep(bases.len(), 4, Acc::default, |i, a: &mut Acc| check_schema(&bases[i].0, &docs, &sdocs, bases[i].1, a));
   let mut fam: BTreeMap<String, u64> = BTreeMap::new();
